@@ -513,7 +513,3 @@ Proof. vm_compute. reflexivity. Qed.
 Example pin_val_fmt_Time_time_format : val_fmt_Time_time_format =
     (t "None").
 Proof. vm_compute. reflexivity. Qed.
-
-Example pin_val_re_inbase_duration : val_re_inbase_duration =
-    (t "(?P<sign>-?)P(?:(?P<years>\d+)Y)?(?:(?P<months>\d+)M)?(?:(?P<days>\d+)D)?(?:T(?:(?P<hours>\d+)H)?(?:(?P<minutes>\d+)M)?(?:(?P<seconds>\d+(\.\d+)?)S)?)?\Z").
-Proof. vm_compute. reflexivity. Qed.
